@@ -246,8 +246,15 @@ def run_cases(lines, tag, timeout_ms=3000, jobs=16):
     cpath = os.path.join(work, tag + ".cases")
     opath = os.path.join(work, tag + ".obs")
     vpath = os.path.join(work, tag + ".verdict")
-    with open(cpath, "w") as f:
+    spath = os.path.join(work, tag + ".spec")
+    with open(spath, "w") as f:
         f.write("\n".join(lines) + "\n")
+    with open(cpath, "w") as cf:
+        p = subprocess.run([os.path.join(BUILD, "ocaml", "twmodel"), "expand", spath], stdout=cf,
+                           stderr=subprocess.PIPE, text=True, timeout=7200)
+    if p.returncode != 0:
+        raise RuntimeError("twmodel expand failed: " + p.stderr[-2000:])
+    lines = [l for l in open(cpath).read().split("\n") if l]
     env = dict(os.environ, VERIF_TMP=os.path.join(BUILD, "tmp"))
     os.makedirs(env["VERIF_TMP"], exist_ok=True)
     rc, out = sh([os.path.join(BUILD, "twharness"), "run", cpath, opath, "-j", str(jobs), "-timeout", str(timeout_ms)],
